@@ -313,6 +313,12 @@ class DataboxWorld(World):
                 step.setdefault("actor", "a0")
             return step
         actor = f"a{sched.randrange(cfg['actors'])}"
+        pending = getattr(self, "_pending", None)
+        if pending:
+            step = pending.pop(0)
+            if step["args"]["box"] in self.boxes:
+                step["actor"] = self.owner[step["args"]["box"]]
+                return step
         own = [h for h in self.boxes if self.owner[h] == actor]
         if not own or len(self.boxes) < 2:
             return self._gen_new_box(actor, rng, val, flt)
@@ -728,6 +734,11 @@ class DataboxWorld(World):
             args["formatter_fails_at"] = rng.choice([0, 1, 2, 4])
         if (args["plan"]["faults"] or "formatter_fails_at" in args) and rng.random() < 0.5:
             args["hold_exception"] = True
+            if rng.random() < 0.6:
+                # ... and the caller tries again at once, still inside its `except` block: a clean export to the same path
+                self._pending = [{"op": "export", "args": {"box": b, "path": args["path"], "names": None, "span": None,
+                                                           "description_row": args["description_row"], "round": 12, "nan_str": "",
+                                                           "plan": {"buffer": self.cfg["buffer"], "short_write": None, "short_read": None, "faults": []}}}]
         if rng.random() < 0.15:
             # another column delimiter, given to the writer and later to the reader of the same file
             args["delimiter"] = rng.choice([";", "\t", "|"])
